@@ -237,9 +237,11 @@ upwards, and resets downwards on a deep fork), clock ticks.  Hypotheses that bou
 * the ticks add up to at most `orphanExpirationTime` — no waiting orphan expires;
 * no restart (a restart forgets side branches and the pool);
 * every finalised height requested, and the initial one, is `≤ Fmax`.
-If the heaviest block `w` is unique and `Fmax + margin ≤ w.height`, the run never panics, the best
-chain is the branch of `w`, and the persisted chain equals that of a fresh node fed only that
-branch in order. -/
+If the heaviest block `w` is unique and `Fmax + margin ≤ w.height`: no start-up panics (`runX … =
+some x`, immediate without restarts), EVERY delivery of the run is answered main / side / orphan /
+already-have-it (`Res.fine`: in particular never `.err .panic` — the `removeOrphanBlock(nil)` of a
+full pool — nor any other error), the best chain is the branch of `w`, and the persisted chain
+equals that of a fresh node fed only that branch in order. -/
 theorem order_independent_events {M : Type} [OMap M] [LawfulOMap M] {g : Block} {T : List Block}
     (ht : Tree g T) (F Fmax m : Nat) (r : Bool) (lim ttl : Nat) (es : List Event)
     (hnr : ∀ e ∈ es, e ≠ Event.restart)
@@ -251,6 +253,7 @@ theorem order_independent_events {M : Type} [OMap M] [LawfulOMap M] {g : Block} 
     let path := chainTo (g :: T) w.height w
     let sref := deliverAll (init F m r g) path.reverse.tail
     ∃ x, runX (initX M F m r g lim ttl) es = some x ∧
+      (∀ res ∈ resultsX (initX M F m r g lim ttl) es, Res.fine res = true) ∧
       x.base.best = path ∧ sref.best = path ∧ x.base.h2h = sref.h2h ∧ x.base.last = sref.last ∧
       x.base.txIdx = sref.txIdx ∧
       (∀ y ∈ path, x.base.stored y.id = sref.stored y.id ∧ x.base.tds y.id = sref.tds y.id) ∧
@@ -265,11 +268,11 @@ theorem order_independent_events {M : Type} [OMap M] [LawfulOMap M] {g : Block} 
       fun h0 => hb.tipMax (by omega),
       fun w' hw' hmax' hel' => hb.win w' hw' hmax' (by omega),
       Nat.le_trans hb.finLe hF, hb.txv⟩
-  obtain ⟨x, hrun, hr, hm⟩ := runX_run ht es [] _ h0 hlim hnr
+  obtain ⟨x, hrun, hr, hm, hres⟩ := runX_run ht es [] _ h0 hlim hnr
     (fun b hb => hds b (mem_delivered.mpr hb)) hfin (by simpa [initX] using htime)
   have hmarg : x.base.margin = m := by rw [hm]; rfl
   have hall' : ∀ b ∈ T, b ∈ [] ++ delivered es := fun b hb => by simpa using hall b hb
-  exact ⟨x, hrun, converged ht hr.run hall' hw hmax (by rw [hmarg]; exact hel) F m r⟩
+  exact ⟨x, hrun, hres, converged ht hr.run hall' hw hmax (by rw [hmarg]; exact hel) F m r⟩
 
 /-! ### the bounds are needed: refuting witnesses (orphan metadata as a function, `decide`) -/
 
@@ -358,6 +361,70 @@ theorem finalFinSuffices_false : ¬ FinalFinSuffices := by
     ⟨14, 13, 4, 100, []⟩ ⟨rfl, by unfold UniqIds; decide, by decide, by decide⟩
     (by decide) (by decide) (by decide) (by decide) (by decide) (by decide) (by decide) (by decide)
   revert this
+  decide
+
+/-! ### concurrent deliveries: `ProcessBlock` is two steps (`probe`, `finish`) -/
+
+/-- both halves back to back are `ProcessBlock`: the sequential theorems are about schedules in which
+the `ProcessBlock` calls do not overlap. -/
+theorem probe_finish (s : State) (b : Block) : finish (probe s b).1 b (probe s b).2 = processBlock s b := by
+  unfold probe processBlock
+  by_cases h1 : haveBlock s b.id = true
+  · simp [h1, finish]
+  · simp only [h1, Bool.false_eq_true, if_false]
+    by_cases h2 : isKnownOrphan s b.id = true ∧ (!haveBlock s b.parent) = true
+    · simp [h2, finish]
+    · simp only [h2, if_false]
+      by_cases h3 : (!haveBlock (unorphan s b) b.parent) = true
+      · simp [h3, finish]
+      · have hb : haveBlock (unorphan s b) b.id = false := by
+          simp only [haveBlock, unorphan_index] at h1 ⊢; simpa using h1
+        simp [h3, finish, hb]
+
+theorem crun_sequential (s : State) (ds : List Block) :
+    crun ⟨s, []⟩ (sequential ds) = ⟨deliverAll s ds, []⟩ := by
+  induction ds generalizing s with
+  | nil => rfl
+  | cons b bs ih =>
+    have : crun ⟨s, []⟩ (sequential (b :: bs)) = crun ⟨(processBlock s b).1, []⟩ (sequential bs) := by
+      simp only [sequential, crun, List.foldl_cons, cstep, List.nil_append, List.find?_cons, beq_self_eq_true,
+        probe_finish]
+      congr 1
+      simp
+    rw [this, ih]
+    rfl
+
+/-- `order_independent` for schedules in which the two halves of different `ProcessBlock` calls may
+interleave (every block's delivery is started and completed). -/
+def OrderIndependentConcurrent : Prop :=
+  ∀ (g : Block) (T : List Block) (m : Nat) (sched : List Step) (w : Block), Tree g T →
+    (∀ b ∈ T, Step.probe b ∈ sched) → (crun ⟨init 0 m true g, []⟩ sched).pending = [] →
+    (∀ st ∈ sched, ∃ b ∈ T, st = Step.probe b ∨ st = Step.finish b) →
+    w ∈ g :: T → (∀ b ∈ g :: T, b ≠ w → TD (g :: T) b < TD (g :: T) w) → m ≤ w.height →
+    (crun ⟨init 0 m true g, []⟩ sched).s.best = chainTo (g :: T) w.height w
+
+/-- **refuted**: parent 1 and child 2 delivered concurrently.  The child's first half sees no parent
+(plan: pool); the parent is then decided, accepted and its `ProcessOrphans` finds an empty pool;
+only now the child is put into the pool.  Both deliveries have returned, every block was delivered,
+the heaviest block 2 is stranded in the orphan pool with its parent on the chain. -/
+theorem orderIndependentConcurrent_false : ¬ OrderIndependentConcurrent := by
+  intro h
+  have := h wg [⟨1, 0, 1, 1, []⟩, ⟨2, 1, 2, 1, []⟩] 1
+    [.probe ⟨2, 1, 2, 1, []⟩, .probe ⟨1, 0, 1, 1, []⟩, .finish ⟨1, 0, 1, 1, []⟩, .finish ⟨2, 1, 2, 1, []⟩]
+    ⟨2, 1, 2, 1, []⟩ ⟨rfl, by unfold UniqIds; decide, by decide, by decide⟩
+    (by decide) (by decide) (by decide) (by decide) (by decide) (by decide)
+  revert this
+  decide
+
+/-- the stranded state of the witness: block 2 waits in the pool although its parent 1 is indexed
+and on the best chain; delivering it AGAIN takes the "known orphan whose parent exists" path of
+`ProcessBlock` and connects it. -/
+example :
+    let c := crun ⟨init 0 1 true wg, []⟩
+      [.probe ⟨2, 1, 2, 1, []⟩, .probe ⟨1, 0, 1, 1, []⟩, .finish ⟨1, 0, 1, 1, []⟩, .finish ⟨2, 1, 2, 1, []⟩]
+    c.s.orphans.map (·.id) = [2] ∧ c.s.best.map (·.id) = [1, 0] ∧
+    (processBlock c.s ⟨2, 1, 2, 1, []⟩).1.best.map (·.id) = [2, 1, 0] ∧
+    (processBlock c.s ⟨2, 1, 2, 1, []⟩).1.orphans = [] := by
   decide
 
 end C25X
